@@ -95,10 +95,15 @@ class SymEnv(BaseEnv):
     def real(self, name, nan=False, inf=False, lo=None, hi=None):
         v = self.sc.real(name, nan=nan, inf=inf)
         self.vars[name] = v
+        if name in self.vars and self.vars[name] is not v:
+            pass
+        if lo is not None and hi is not None and lo > hi:
+            raise self.sc.PathAbort()
+        fin = self.sc.Not_(v.inf)
         if lo is not None:
-            self.ctx.assume((v >= lo).t if not nan else self.sc.Or_(v.nan, (v >= lo).t))
+            self.ctx.constrain_fresh(self.sc.Or_(v.nan, self.sc.And_(fin, v.v >= self.sc.rv(lo))) if (nan or inf) else v.v >= self.sc.rv(lo))
         if hi is not None:
-            self.ctx.assume((v <= hi).t if not nan else self.sc.Or_(v.nan, (v <= hi).t))
+            self.ctx.constrain_fresh(self.sc.Or_(v.nan, self.sc.And_(fin, v.v <= self.sc.rv(hi))) if (nan or inf) else v.v <= self.sc.rv(hi))
         return v
 
     def bool(self, name):
